@@ -3,6 +3,8 @@
 package objects
 
 import (
+	"time"
+
 	"github.com/apache/yunikorn-core/pkg/common/resources"
 	"github.com/apache/yunikorn-core/pkg/events"
 	schedEvt "github.com/apache/yunikorn-core/pkg/scheduler/objects/events"
@@ -57,6 +59,8 @@ func vPreemptWorld() (a, b *Queue, appA *Application, ask *Allocation, n1 *Node,
 	n1.totalResource = vResD("node-1.total", 40)
 	n1.allocatedResource, n1.occupiedResource, n1.availableResource = resourcesNew(), resourcesNew(), n1.totalResource.Clone()
 	keys := []string{"v-1", "v-2"}
+	t0 := time.Now()
+	v1Newer := vBool("v-1.newer")
 	for j := 0; j < 2; j++ {
 		v := &Allocation{allocationKey: keys[j], applicationID: "app-b", allocated: true, nodeID: "node-1",
 			priority: 0, allocatedResource: vResD(keys[j]+".res", 10), allocLog: map[string]*AllocationLogEntry{},
@@ -68,6 +72,13 @@ func vPreemptWorld() (a, b *Queue, appA *Application, ask *Allocation, n1 *Node,
 			}
 		}
 		vAssume(pos)
+		// distinct creation times, either victim may be the newer one: victims with equal score and creation time
+		// are ordered by map iteration, i.e. not at all (and differently in every native run)
+		if (j == 0) == v1Newer {
+			v.createTime = t0.Add(time.Second)
+		} else {
+			v.createTime = t0
+		}
 		vict[j] = v
 		appB.allocations[keys[j]] = v
 		appB.allocatedResource.AddTo(v.allocatedResource)
